@@ -40,6 +40,11 @@ def bases(engine):
                [D("d1", outcomes={"s1#1": "verif: rejected", "s1#2": "verif: rejected"})], window=4, threshold=3,
                steps=[{"do": "Emit", "src": "s1"}, {"do": "Confirm", "dst": "d1"}, {"do": "Emit", "src": "s1"},
                       {"do": "DlqConfirm"}, {"do": "Confirm", "dst": "d1"}], dlq_cfg={"gated": True}, max_retries=2))
+    # the DLQ is still opening when a record has already been rejected: the nack waits for it; the force stop arrives then
+    out.append(dpgen.scenario(engine + "-fs-dlqopening", engine, [S("s1", 3, [1, 1, 1], gated=False)],
+               [D("d1", gated=False, outcomes={"s1#1": "verif: rejected"})], window=4, threshold=3,
+               steps=[{"do": "Sleep", "ms": 150}, {"do": "Sleep", "ms": 150}],
+               dlq_cfg={"gated": False, "open_delay_ms": 1200}, max_retries=2))
     out.append(dpgen.scenario(engine + "-fs-graceful", engine, [S("s1", 3, [1, 1, 1])], [D("d1")],
                steps=[{"do": "Emit", "src": "s1"}, {"do": "Emit", "src": "s1"}, {"do": "Stop"},
                       {"do": "Confirm", "dst": "d1"}], max_retries=2))
